@@ -432,7 +432,7 @@ fn main() {
         }
     }
     ctx.set("ratio_plans", json!(plans.len()));
-    ctx.rule(&format!("interpolator in {{Floor, Linear}} x frame type in {{f64, [f32;2], [i16;2]}} x source length 0..=8 (primed frames included) x content in {{ramp, alternating extremes}} x ratio plan: 27 constant ratios (incl. the scale probes 16, 31.5, 32, 33, 64.25, 1000) through every constructor (scale_playback_hz, from_hz_to_hz, scale_sample_hz, Signal::scale_hz, Signal::from_hz_to_hz), every per-frame ratio sequence over {{1/2,1,3/2,2}} and over {{0.7,1,1.1,3.3}} of length <= {maxlen} through mul_hz, every (r1, switch point k<6, r2, setter) plan; oracle: P_n as an exact rational (i128 x 2^-100), instrumented source: pulls == floor(P_n) (exactly for dyadic ratios, within n*2^-50 relative for others), floor output == source frame at the pulled index, linear output == straight-line blend at the exact fraction within 4 ulp / 1 LSB and inside the interval of the two frames, ratio 1 exact, is_exhausted() before each output == (source exhausted and that output pulled), output count for constant ratios in {{ceil((R+1)/r), +1}}; distinct by (configuration, output fingerprint)"));
+    ctx.rule(&format!("interpolator in {{Floor, Linear}} x frame type in {{f64, [f32;2], [i16;2]}} x source length 0..=8 (primed frames included; scale probes: 20 and 50 frames under every constant ratio, 65535 and 65537 frames under the ratios 1/2, 1, 2, 33, 1000) x content in {{ramp, alternating extremes}} x ratio plan: 27 constant ratios (incl. the scale probes 16, 31.5, 32, 33, 64.25, 1000) through every constructor (scale_playback_hz, from_hz_to_hz, scale_sample_hz, Signal::scale_hz, Signal::from_hz_to_hz), every per-frame ratio sequence over {{1/2,1,3/2,2}} and over {{0.7,1,1.1,3.3}} of length <= {maxlen} through mul_hz, every (r1, switch point k<6, r2, setter) plan; oracle: P_n as an exact rational (i128 x 2^-100), instrumented source: pulls == floor(P_n) (exactly for dyadic ratios, within n*2^-50 relative for others), floor output == source frame at the pulled index, linear output == straight-line blend at the exact fraction within 4 ulp / 1 LSB and inside the interval of the two frames, ratio 1 exact, is_exhausted() before each output == (source exhausted and that output pulled), output count for constant ratios in {{ceil((R+1)/r), +1}}; distinct by (configuration, output fingerprint)"));
     let mut cases = Vec::new();
     for fmt in ["f64", "[f32;2]", "[i16;2]"] {
         for lin in [false, true] {
@@ -452,6 +452,20 @@ fn main() {
                 for (pi, p) in plans.iter().enumerate() {
                     if matches!(p, Plan::Const(_, 0)) {
                         cases.push((fmt, lin, len, false, pi));
+                    }
+                }
+            }
+        }
+    }
+    // 16-bit boundary: sources of 2^16 +- 1 frames under a few constant ratios
+    for fmt in ["f64", "[i16;2]"] {
+        for lin in [false, true] {
+            for len in [65535usize, 65537] {
+                for (pi, p) in plans.iter().enumerate() {
+                    if let Plan::Const(r, 0) = p {
+                        if [0.5, 1.0, 2.0, 33.0, 1000.0].contains(r) {
+                            cases.push((fmt, lin, len, false, pi));
+                        }
                     }
                 }
             }
